@@ -39,6 +39,8 @@ struct coap_async_t {
   coap_session_t *session;         /**< transaction session */
   coap_pdu_t *pdu;                 /**< copy of request pdu */
   void *appdata;                   /**< User definable data pointer */
+  uint8_t oscore_protected;        /**< the request came out of OSCORE
+                                        decryption when it was received */
 };
 
 /**
